@@ -305,7 +305,12 @@ func (fc *FuncCtx) atAsserts(c *ssa.CallCommon, args []TV, st *State, reach stri
 		}
 		var tt string
 		if err := catchTr(fmt.Sprintf("%s at-rule %d", t.fnName, i), func() { tt = env.trBool(r.C.E) }); err != nil {
-			panic(trErr(err.Error()))
+			// the clause cannot be interpreted at this site (a name it speaks about is not in scope here:
+			// the code around the guarded call was restructured): the named obligation fails, the rest of
+			// the function is still verified
+			o := fc.oblige(fmt.Sprintf("at@%s#%d", key, site), clauseLabel(r.C, i), reach, "false", "assertion at call to "+key+" cannot be interpreted at this site ("+err.Error()+"): "+r.C.Src, r.C.Tags)
+			o.Uninterpretable = err.Error()
+			continue
 		}
 		fc.curEnv = env
 		fc.oblige(fmt.Sprintf("at@%s#%d", key, site), clauseLabel(r.C, i), reach, tt, "assertion at call to "+key+": "+r.C.Src, r.C.Tags)
